@@ -36,6 +36,7 @@ SHARED = {
     "C20": [("C07", ("C07.T3", "C07.T4"), None, "descendants stay inside their ancestor's ID interval only if children are placed two bits per level below the parent's bits, contiguously"),
             ("C14", ("C14.C",), "canonical:cell_to_", "ancestors and descendants keep the layout only if every hierarchy result is a serialize() output (no hand-assembled IDs)")],
     "C07": [("C14", ("C14.C",), "canonical:cell_to_", "one consistent tree needs canonical IDs from both hierarchy functions")],
+    "C05": [("C14", ("C14.C",), "canonical:", "every ID returned by any API call is in the canonical form only if it is a serialize() output, the world cell, or taken from a collection of such")],
 }
 
 
